@@ -515,6 +515,8 @@ def run_recipe(ctx, recipe: dict, chaos: Optional[Callable] = None) -> dict:
         tracks: Dict[str, dict] = {}
         oracle_fail: List[dict] = []
         seen_visible: Dict[tuple, int] = {}
+        folder_ids: Dict[tuple, tuple] = {}   # (episode, host, folder name) -> (uuid, step last seen)
+        replaced: Dict[str, List[str]] = {}   # "episode:step" -> folders that are another object than one step before
         incoherent: List[dict] = []
         ever: Dict[str, set] = {}
         label = recipe["label"]
@@ -540,7 +542,14 @@ def run_recipe(ctx, recipe: dict, chaos: Optional[Callable] = None) -> dict:
                 diverged = {"service": 0, "application": 0, "file": 0, "folder": 0}
                 for node in game.simulation.network.nodes.values():
                     for f in node.file_system.folders.values():
-                        key = (ep, node.config.hostname, f.name)
+                        nkey = (ep, node.config.hostname, f.name)
+                        was = folder_ids.get(nkey)
+                        if was is not None and was[0] != f.uuid and was[1] == step - 1:
+                            # another folder object under the same name, and no observation in between saw the name absent
+                            replaced.setdefault(f"{ep}:{step}", []).append(f"{node.config.hostname}/{f.name}")
+                            ctx.count("truth:folder-replaced-within-one-tick")
+                        folder_ids[nkey] = (f.uuid, step)
+                        key = (ep, node.config.hostname, f.name, f.uuid)  # the coherence condition is about ONE folder object
                         prev = seen_visible.get(key, 0)
                         cur_v = f.visible_health_status.value
                         if cur_v != prev and not f._scanned_this_step and node.operating_state.value == 1:
@@ -744,7 +753,7 @@ def run_recipe(ctx, recipe: dict, chaos: Optional[Callable] = None) -> dict:
                 if trunc:
                     break
         env.close()
-        return {"tracks": tracks, "oracle_fail": oracle_fail, "incoherent": incoherent, "recipe": recipe, "constant": constant}
+        return {"tracks": tracks, "oracle_fail": oracle_fail, "incoherent": incoherent, "recipe": recipe, "constant": constant, "replaced": replaced}
     finally:
         if override is not None:
             override.__exit__()
@@ -820,9 +829,15 @@ def check_env(ctx, rname: str, res: dict, model_by_track: Dict[str, List[str]], 
                         continue
                     agree = False
                     at = next((i for i, (a_, b_) in enumerate(zip(cell[1], model[idx])) if a_ != b_), min(len(cell[1]), len(model[idx])))
-                    ctx.violation({"kind": "model-vs-impl", "what": "flattened vector (order of the leaves)", "class": "env"},
-                                  f"{rname} {key}: flatten(space, obs) differs from the model's gymFlatten at position {at} (lengths {len(cell[1])} / {len(model[idx])})",
-                                  {"recipe": recipe, "track": key, "position": at})
+                    detail = (f"{rname} {key}: flatten(space, obs) differs from the model's gymFlatten at position {at} "
+                              f"(lengths {len(cell[1])} / {len(model[idx])}, ones {cell[1].count('1')} / {model[idx].count('1')})")
+                    if len(cell[1]) != len(model[idx]) or cell[1].count("1") != model[idx].count("1"):
+                        ctx.violation({"kind": "model-vs-impl", "what": "flattened vector (length / number of ones)", "class": "env"}, detail,
+                                      {"recipe": recipe, "track": key, "position": at})
+                    else:
+                        # the same leaves in another ORDER: no clause of C02 / C09 fixes the order, so this is a broken tie (the model of
+                        # gymnasium's key order no longer describes how the classes build their spaces), not a violation of the property
+                        ctx.oblige(f"rig:flattened vector in the model's order:{rname}:{key}", "correspondence", False, detail)
                     break
                 continue
             if cell[0] == "flatdim":
